@@ -12,7 +12,10 @@ Open Scope string_scope.
 (* _deal_validate(self) *)
 Inductive vinstr :=
 | VIfNotDebugReturn          (* if not state.debug: return *)
-| VForInvsValidate.          (* for validator in self._deal_invariants: validator.validate((self,), {}) *)
+| VForInvsValidate           (* for validator in self._deal_invariants: validator.validate((self,), {}) *)
+| VSetDebug (b : bool)       (* state.debug = b *)
+| VTryForInvsValidateFinallySetDebug (b : bool).
+                             (* try: for validator in self._deal_invariants: validator.validate((self,), {})  finally: state.debug = b *)
 (* _deal_patched_method(self, method, *args, **kwargs ) *)
 Inductive minstr :=
 | MValidate                  (* self._deal_validate() *)
@@ -52,21 +55,28 @@ Section Exec.
   Variable code : inv_code.
   Variables (cls : attrs) (invs : list inv).
 
-  (* _deal_validate: None = returned normally, Some e = raised e *)
-  Fixpoint exec_validate (l : list vinstr) (s : istate) : option outcome :=
+  (* _deal_validate: the state afterwards (the switch is part of it) and None = returned normally, Some e = raised e *)
+  Definition set_enabled (s : istate) (b : bool) : istate := {| s_inst := s_inst s; s_enabled := b |}.
+  Fixpoint exec_validate (l : list vinstr) (s : istate) : istate * option outcome :=
     match l with
-    | [] => None
-    | VIfNotDebugReturn :: t => if s_enabled s then exec_validate t s else None
-    | VForInvsValidate :: t => match of_vres (validate_all cls (s_inst s) invs) with Some e => Some e | None => exec_validate t s end
+    | [] => (s, None)
+    | VIfNotDebugReturn :: t => if s_enabled s then exec_validate t s else (s, None)
+    | VForInvsValidate :: t => match of_vres (validate_all cls (s_inst s) invs) with Some e => (s, Some e) | None => exec_validate t s end
+    | VSetDebug b :: t => exec_validate t (set_enabled s b)
+    | VTryForInvsValidateFinallySetDebug b :: t =>
+        match of_vres (validate_all cls (s_inst s) invs) with
+        | Some e => (set_enabled s b, Some e)
+        | None => exec_validate t (set_enabled s b)
+        end
     end.
-  Definition validate (s : istate) : option outcome := exec_validate (c_validate code) s.
+  Definition validate (s : istate) : istate * option outcome := exec_validate (c_validate code) s.
 
   (* __setattr__ *)
   Fixpoint exec_setattr (l : list sinstr) (s : istate) (n : string) (v : value) : istate * option outcome :=
     match l with
     | [] => (s, None)
     | SStore :: t => exec_setattr t (set_attr s n v) n v
-    | SValidate :: t => match validate s with Some e => (s, Some e) | None => exec_setattr t s n v end
+    | SValidate :: t => match validate s with (s1, Some e) => (s1, Some e) | (s1, None) => exec_setattr t s1 n v end
     end.
   Definition setattr (s : istate) (n : string) (v : value) := exec_setattr (c_setattr code) s n v.
 
@@ -88,7 +98,7 @@ Section Exec.
     Fixpoint exec_patched (l : list minstr) (s : istate) (result : option value) : istate * outcome :=
       match l with
       | [] => (s, Ok VNone)
-      | MValidate :: t => match validate s with Some e => (s, e) | None => exec_patched t s result end
+      | MValidate :: t => match validate s with (s1, Some e) => (s1, e) | (s1, None) => exec_patched t s1 result end
       | MCallIntoResult :: t => match method s with
                                 | (s1, inr e) => (s1, e)
                                 | (s1, inl v) => exec_patched t s1 (Some v)
